@@ -56,7 +56,7 @@ def make_plan(run_seed: int, profile: Dict[str, Any]) -> Dict[str, Any]:
         family, grammar, formula_text = formalization, {}, ""
     else:
         family, grammar = make_grammar(rng)
-        formula = gen_formula(grammar, rng)
+        formula = gen_formula(grammar, rng, family)
         formula_text = print_formula(formula)
     st = gen_settings(rng)
     st["timeout_seconds"] = None
